@@ -323,6 +323,61 @@ def cache_results():
     return out
 
 
+# ------------------------------------------------------------------------------------------------ M7
+def _mode_job(idx):
+    """The type checker's documented switch be_nice (answer None instead of raising) is turned on, the application is
+    probed, the switch is turned off again: afterwards the construction has the outcome of a fresh manager (also for
+    the formulas built on top of the probed one)."""
+    t = ill_typed()[idx]
+
+    def one(ex):
+        res = {}
+        for mode in ("fresh", "after"):
+            it, w, env = _fresh(ex)
+            args = [_build(w, env, x) for x in t[1:]]
+            if mode == "after":
+                stc = w.env.attrs["_stc"]
+                stc.attrs["be_nice"] = True
+                try:
+                    w.app(t[0], *args)
+                except AbsRaise:
+                    pass
+                stc.attrs["be_nice"] = False
+            outs = []
+            for _ in range(2):
+                try:
+                    r = w.app(t[0], *args)
+                    outs.append("returned")
+                except AbsRaise as ex_:
+                    outs.append("raises %s" % ex_.cls_name)
+            res[mode] = tuple(outs)
+        return res
+    tag = "%s after a be_nice probe of the same application" % _show(t)
+    try:
+        paths = Explorer(max_paths=4).run(one)
+    except Unsupported as e:
+        return [("unsupported", tag, str(e))]
+    out = []
+    for p in paths:
+        if p.kind != "return":
+            out.append(("unsupported", tag, "%s %s" % (p.kind, str(p.value)[:200])))
+            continue
+        f, a = p.value["fresh"], p.value["after"]
+        if f != a:
+            out.append(("bad", "mode|%s" % _show(t), "%s: %s; on a fresh manager: %s - the outcome of a construction depends on what "
+                        "was probed before" % (tag, " / ".join(a), " / ".join(f))))
+        else:
+            out.append(("ok", tag, "as on a fresh manager: %s" % (f[0],)))
+    return out
+
+
+def mode_results():
+    out = []
+    for r in parallel_map(_mode_job, list(range(0, len(ill_typed()), 2))):
+        out.extend(r)
+    return out
+
+
 def report(ctx, rs, results, where, floor):
     for kind, key, detail in results:
         if kind == "ok":
